@@ -389,6 +389,23 @@ func hpidScripts() [][]string {
 	return out
 }
 
+// namedWaits: two named background commands with every combination of exit
+// status and "!" flag, then wait on one of them, on the other, or on both.
+func namedWaits() [][]string {
+	var out [][]string
+	starts := func(name string) []string {
+		return []string{"exec hexit 0 &" + name + "&", "exec hexit 3 &" + name + "&", "! exec hexit 0 &" + name + "&", "! exec hexit 3 &" + name + "&"}
+	}
+	for _, a := range starts("n") {
+		for _, b := range starts("m") {
+			for _, w := range [][]string{{"wait n"}, {"wait m"}, {"wait"}, {"wait n", "wait m"}, {"wait m", "wait n"}, {"wait n", "ok", "wait n"}} {
+				out = append(out, append(append([]string{a, b}, w...), "ok"))
+			}
+		}
+	}
+	return out
+}
+
 func violKey(class string, c scase) string { return class + " script=" + c.String() }
 
 func main() { tsh.Main(func() int { realMain(); return 0 }) }
@@ -477,6 +494,11 @@ func realMain() {
 	}
 	for _, cfg := range []config{def, coe, {Panic: true}} {
 		for _, s := range hpidScripts() {
+			cases = append(cases, scase{cfg, s, false})
+		}
+	}
+	for _, cfg := range []config{def, {Panic: true}} {
+		for _, s := range namedWaits() {
 			cases = append(cases, scase{cfg, s, false})
 		}
 	}
